@@ -107,7 +107,7 @@ def build_harness_asan(pkg="vh", bin_name=None):
     return binp
 
 
-def run_harness(binp, args, stdin=None, timeout=3600, env=None, check=True):
+def run_harness(binp, args, stdin=None, timeout=3600, env=None, check=True, raise_timeout=False):
     e = dict(os.environ)
     if env:
         e.update(env)
@@ -115,6 +115,8 @@ def run_harness(binp, args, stdin=None, timeout=3600, env=None, check=True):
         r = subprocess.run([binp] + [str(a) for a in args], input=stdin, stdout=subprocess.PIPE,
                            stderr=subprocess.PIPE, text=True, timeout=timeout, env=e)
     except subprocess.TimeoutExpired:
+        if raise_timeout:
+            raise
         raise ToolError("harness timeout: %s %s" % (binp, args))
     if check and r.returncode != 0:
         raise ToolError("harness failed (%d): %s %s\n%s" % (r.returncode, binp, args, r.stderr[-4000:]))
